@@ -1,0 +1,17 @@
+//go:build verif
+
+package cabf_cs_br
+
+// Machine-checked contracts for the verification machinery in /verif (govc).
+// This file contains comments only and is compiled only with -tags verif.
+
+// RSA key quality (C16)
+
+//@ func (*csRsaKeySize).Execute [C16]
+//@   requires c != nil && implies(typeIs(c.PublicKey, *rsa.PublicKey), util.hasRSAKey(c))
+//@   nopanic
+//@   assigns \fresh
+//@   ensures result != nil && fresh(result)
+//@   ensures implies(!typeIs(c.PublicKey, *rsa.PublicKey), result.Status == lint.NA)
+//@   ensures implies(typeIs(c.PublicKey, *rsa.PublicKey), (result.Status == lint.Error || result.Status == lint.Pass) &&
+//@                   (result.Status == lint.Error) == (bitlen(util.modulus(c)) < 3072))
